@@ -52,6 +52,17 @@ Example supply_overflow_fails_closed_when_guarded :
            (sendToBank_call (2 ^ 255)) 0) = Err.
 Proof. vm_compute. reflexivity. Qed.
 
+(** eth.NibiruAddrToEthAddr written as the slice-to-array conversion gethcommon.Address(addr): a VALID
+    bech32 address whose payload is shorter than 20 bytes panics, here whoAmI from a STATICCALL *)
+Lemma no_panic_refuted_partial_addr_conversion :
+  exists k inp, input_wf inp = true /\
+    r_out (call (with_addr_conv reference_facts false) PFunToken k 0 1000000 inp) = Panic.
+Proof. exists KStatic, whoAmI_short_bech32_call. vm_compute. split; reflexivity. Qed.
+
+Example short_bech32_fine_with_total_conversion :
+  r_out (call reference_facts PFunToken KStatic 0 1000000 whoAmI_short_bech32_call) = Ok.
+Proof. vm_compute. reflexivity. Qed.
+
 (** after the fixes the same four calls fail closed *)
 Example fixed_calls_fail_closed :
   r_out (call reference_facts PFunToken KTop 0 1000000 empty_calldata) = Err /\
